@@ -1,2 +1,5 @@
+pub mod bytes;
+pub mod kind;
 pub mod path;
+pub mod timez;
 pub mod value;
